@@ -13,7 +13,7 @@ _GEN = "random well-typed operator DAGs from vp.gen (1-2 tables, 0-7 rows with n
 CHECKS = {
     "C01": {
         "technique": "differential property-based testing: Pandas executor vs to_sql()+SQLite on generated operator DAGs and tables",
-        "text": f"Differential exploration: {_GEN} are evaluated by the Pandas executor and by the generated SQL on a real in-memory SQLite; column sets, row multisets (float tolerance, null==NaN) and the key sequence after a final order_rows must agree. The region of one recorded open finding (FULL join on differently named keys cannot be translated for SQLite) is excluded by construction and counted. Exploration only.",
+        "text": f"Differential exploration: {_GEN} are evaluated by the Pandas executor and by the generated SQL on a real in-memory SQLite; column sets, row multisets (float tolerance, null==NaN) and the key sequence after a final order_rows must agree. No region is excluded (all findings of this property are repaired; their replays run as regressions). Exploration only.",
         "note": "Trusted: vp.cmp comparator, vp.schema type/nullability tracker (decides which columns are zero/null tolerant), SQLite 3.40 as SQL engine. Method fragment is the 'core' list of DESIGN.md 2.2 (no integer / // %, no comparisons on nullable operands: documented conventions).",
     },
     "C02": {
@@ -94,7 +94,7 @@ CHECKS = {
         "engine": "sqlite-surrogate",
         "technique": "metamorphic property-based testing: the same generated pipeline under every SQLFormatOptions / extend-merge / dialect variant must return the same table",
         "text": "Metamorphic exploration: generated DAGs biased to shared sub-pipelines under two consumers and chains of extends are translated under 16 (quick) or 288 (thorough) variants of use_with x use_cte_elim x annotate x initial_commas x sql_indent x allow_extend_merges x {SQLite, SQLite with CTE elimination enabled, PostgreSQL dialect}; every variant is executed on SQLite and compared with the un-optimised baseline of its dialect and across dialects; to_sql must also be repeatable. Evidence counts how often CTE elimination / SQL-level merging actually fired.",
-        "note": "Trusted: SQLite 3.40 as executor of all three dialect configurations (PostgreSQL text on a surrogate), vp.cmp. FULL joins on nullable keys are excluded while finding F14 (SQLite FULL join emulation) is open.",
+        "note": "Trusted: SQLite 3.40 as executor of all three dialect configurations (PostgreSQL text on a surrogate), vp.cmp. Three campaigns: all 16 variants on general DAGs, a CTE-elimination focus (diamonds whose consumers are twins or ask the shared node for complementary column subsets; PostgreSQL-dialect variants) and an extend-merge focus (row-wise extend directly followed by a window ordered by what it assigned; plain SQLite variants). SQLite resource-limit errors (parser stack depth) are inconclusive.",
     },
     "C14": {
         "engine": "sqlite-surrogate",
@@ -104,7 +104,7 @@ CHECKS = {
     },
     "C15": {
         "technique": "metamorphic property-based testing: injective renaming of all table/column names into internal scratch names harvested from the sources, SQL keywords, spaced names",
-        "text": "Each generated DAG is evaluated as is and after renaming every table and column (incl. created columns and record-map columns) into a pool dominated by names the executors / SQL generator use internally (harvested from the source files at run time, plus '<column><join suffix>' collisions), SQL keywords, mixed case and names with spaces; on Pandas, Polars and SQLite the result must be the renamed original result, and nothing may fail only after renaming. Names listed in three recorded findings are excluded per engine by construction.",
+        "text": "Each generated DAG is evaluated as is and after renaming every table and column (incl. created columns and record-map columns) into a pool dominated by names the executors / SQL generator use internally (harvested from the source files at run time, plus '<column><join suffix>' collisions), SQL keywords, mixed case and names with spaces; on Pandas, Polars and SQLite the result must be the renamed original result, and nothing may fail only after renaming. A second campaign uses ordinary names only (so every engine is compared on every case) on programs biased to steps whose meaning depends on a user-given column ORDER, half of them with new names that sort in the reverse alphabetical order of the old ones. Names listed in the one remaining recorded finding (Polars scratch names, F35) are excluded for Polars only.",
         "note": "Trusted: the spec-level renamer in vp/checks/c15.py. Each engine is compared with itself. Names never contain identifier quote characters and differ by more than letter case (SQLite identifiers are case-insensitive).",
     },
     "C17": {
